@@ -29,8 +29,8 @@ TRUSTED = ["CPython compile()/tokenize/int() as the oracle of valid Python and o
 ASSUMPTIONS = ["language_level=3, default directives, C (not C++) output", "Python 3.12 grammar; PEP 695 syntax excluded as documented-unsupported"]
 
 # repairs in the tree under test (see proposed_fixes/C43-*.md); env overrides for patched worktrees
-FX_IMAG = os.environ.get("C43_FX_IMAG", "0") == "1"        # imagconst accepts every digitpart (0_7j)
-FX_INTCHK = os.environ.get("C43_FX_INTCHK", "0") == "1"    # p_int_literal reports undecodable integer literals
+FX_IMAG = os.environ.get("C43_FX_IMAG", "1") == "1"        # imagconst accepts every digitpart (0_7j)
+FX_INTCHK = os.environ.get("C43_FX_INTCHK", "1") == "1"    # p_int_literal reports undecodable integer literals
 
 # ------------------------------------------------------------------------------------------------
 # documented / tested deliberate rejections: (regex on the error message, why)
